@@ -158,7 +158,11 @@ def labels_of_scenario(sc):
     emitted = []              # frames the emit hooks reported, in order
 
     def add(lbl, pre=(), outs=None, flow=None):
-        e = "(mkE [%s] %s %s [])" % ("; ".join(list(obs) + list(pre)),
+        allobs = []
+        for x in list(obs) + list(pre):
+            if x not in allobs:
+                allobs.append(x)
+        e = "(mkE [%s] %s %s [])" % ("; ".join(allobs),
                                      "None" if outs is None else "(Some [%s])" % "; ".join(outs),
                                      "None" if flow is None else "(Some %s)" % flow)
         labels.append([lbl, e])
@@ -505,7 +509,54 @@ def labels_of_scenario(sc):
         p0 = first_local[0] or [-1] * 7      # the handshake's SETTINGS never reached the wire: first hook observation
     shut, user = ping_constants()
     cfg = "(%s, %d, %d)" % (sparams(p0), shut, user)
-    return cfg, ["(%s, %s)" % (l, ex) for l, ex in labels], counts, wire_consistency(sc, emitted)
+    return cfg, [(l, ex) for l, ex in labels], counts, wire_consistency(sc, emitted)
+
+
+QUIET = ["LPollGoAway Ready", "LPollPong Ready", "LPollPing Ready", "LSettingsAck Ready None", "LSettingsLocal Ready"]
+_EXP = re.compile(r"^\(mkE \[(.*)\] \(Some \[(.*?)\]\) \(Some FNext\) \[\]\)$", re.S)
+
+
+def segments(labels_with_expect):
+    """compress: a quiet poll2 iteration (nothing pending, nothing emitted) becomes `QI obs reg` (see Model/Control.v)"""
+    segs, cur = [], []
+    items = labels_with_expect
+    k = 0
+    while k < len(items):
+        quiet = None
+        if k + 5 <= len(items) and [items[k + j][0] for j in range(5)] == QUIET:
+            obs, ok, reg = [], True, False
+            for j in range(5):
+                m = _EXP.match(items[k + j][1])
+                if not m:
+                    ok = False
+                    break
+                outs = m.group(2).strip()
+                if j == 2 and outs == "OReg WPingTask":
+                    reg = True
+                elif outs != "":
+                    ok = False
+                    break
+                if m.group(1).strip():
+                    obs.append(m.group(1).strip())
+            if ok:
+                flat = []
+                for grp in obs:
+                    for x in grp.split("; "):
+                        if x not in flat:
+                            flat.append(x)
+                quiet = "QI [%s] %s" % ("; ".join(flat), B(reg))
+        if quiet:
+            if cur:
+                segs.append("[%s]" % ";\n    ".join(cur))
+                cur = []
+            segs.append(quiet)
+            k += 5
+        else:
+            cur.append("(%s, %s)" % items[k])
+            k += 1
+    if cur:
+        segs.append("[%s]" % ";\n    ".join(cur))
+    return segs
 
 
 def wire_consistency(sc, emitted):
@@ -538,7 +589,7 @@ def wire_consistency(sc, emitted):
 
 def coq_case(sc):
     cfg, labels, counts, wc = labels_of_scenario(sc)
-    return "(%s, [%s])" % (cfg, ";\n    ".join(labels)), counts, len(labels), wc
+    return "(%s, [%s])" % (cfg, ";\n   ".join(segments(labels))), counts, len(labels), wc
 
 
 PREAMBLE = "From H2V Require Import Base.Tac Base.Bytes Model.Control.\nLocal Open Scope N_scope.\n"
@@ -596,7 +647,7 @@ def correspond_control(rep, tier, seed, profiles=PROFILES, extra=()):
             all_scs.append(sc)
             for k, v in counts.items():
                 hist[k] = hist.get(k, 0) + v
-    failing, err = common.coq_eval_failing("control", PREAMBLE, "check_control", all_cases, shard=10)
+    failing, err = common.coq_eval_failing("control", PREAMBLE, "check_control", all_cases, shard=max(4, -(-len(all_cases) // common.NPROC)))
     if err:
         rep.violation("broken-correspondence", {"what": "coqc failed on generated control cases", "log": err[-3000:]}, no_input=True)
     for sc, msg in proj_errors[:3]:
@@ -626,6 +677,45 @@ def correspond_control(rep, tier, seed, profiles=PROFILES, extra=()):
     return all_scs, failing
 
 
+def panic_class(msg):
+    if "left: User" in msg and "right: Library" in msg:
+        return "reset-initiator-user-debug-assert"
+    if "GOAWAY stream IDs shouldn't be higher" in msg:
+        return "goaway-id-assert"
+    m = re.search(r"assertion failed: ([\w.!() ]+)", msg)
+    return "assert:" + (m.group(1).strip() if m else msg[:60])
+
+
+def split_assert_failures(rep, scs, failing):
+    """A lock-step case in which the model says Panic (an assert of the modelled code fires) and the implementation did panic
+    in that run is not a broken correspondence but an input on which the implementation violates 'no assert fires':
+    report it as failing-input (or as a known finding of its class).  Returns the remaining (genuinely disagreeing) indices."""
+    rest = []
+    known = common.load_known_findings().get("known", [])
+    for i in failing:
+        sc = scs[i]
+        panics = [st for st in sc["trace"] if isinstance(st["res"], dict) and "panic" in st["res"]]
+        if not panics:
+            rest.append(i)
+            continue
+        case, _, _, _ = coq_case(sc)
+        rc, out = common.coq_eval_raw("control_diag", PREAMBLE + "Definition c := %s.\nEval vm_compute in (diag_control c).\n" % case)
+        m = re.search(r"=\s*(\d+)", out)
+        code = int(m.group(1)) if m else 0
+        if code % 10 != 4:
+            rest.append(i)
+            continue
+        cls = panic_class(panics[0]["res"]["panic"])
+        kn = [k for k in known if k.get("property") in (rep.prop, "C14", "C15") and k.get("class") == cls]
+        if kn:
+            rep.known("%s/%s: %s" % (rep.prop, cls, kn[0].get("what", "")[:160]))
+        else:
+            rep.violation("failing-input", {"oracle": "no assert of settings.rs / ping_pong.rs / go_away.rs / connection.rs fires (C14_no_assert / C15_no_assert): "
+                                                      "the model predicts the assertion failure and the implementation panicked",
+                                            "class": cls, "panic": panics[0]["res"]["panic"], "step": panics[0]["i"], "scenario": scenario_of(sc)})
+    return rest
+
+
 def scenario_of(sc):
     return {"cfg": sc["cfg"], "seed": sc.get("seed"), "i": sc.get("i"), "profile": sc.get("profile"),
             "trace": [{"op": st["op"]} for st in sc["trace"]]}
@@ -646,8 +736,8 @@ def report_disagreements(rep, scs, failing, theorems=()):
             "reason": {1: "pre-state differs", 2: "outputs differ", 3: "model Stuck (the code took a step the poll2 order forbids)",
                        4: "model Panic (an assert of the code would fire)", 5: "control flow differs", 6: "post-state differs",
                        7: "PING payload constants differ"}.get((code or 0) % 10, "?"),
-            "first_diverging_label": labels[k] if k is not None and k < len(labels) else None,
-            "labels_before": labels[max(0, (k or 0) - 6):(k or 0)],
+            "first_diverging_label": "(%s, %s)" % labels[k] if k is not None and k < len(labels) else None,
+            "labels_before": ["(%s, %s)" % x for x in labels[max(0, (k or 0) - 6):(k or 0)]],
             "theorems_no_longer_tied_to_code": list(theorems),
             "scenario": scenario_of(sc)}, no_input=True)
 
@@ -670,6 +760,13 @@ def fed_frames(sc):
             w = op.get("what")
             out.append((st["i"], w if isinstance(w, dict) and "t" in w else None))
     return out
+
+
+# texts of the assert!/expect calls of settings.rs, ping_pong.rs, go_away.rs, connection.rs and Recv::go_away
+CONTROL_ASSERTS = ("GOAWAY stream IDs shouldn't be higher", "pending_ping should be for shutdown", "received unexpected shutdown ping",
+                   "graceful GOAWAY should be NO_ERROR", "self.remote.is_none()", "self.pending_pong.is_none()",
+                   "self.pending_ping.is_none()", "self.max_stream_id >= last_processed_id", "invalid GOAWAY frame",
+                   "invalid settings frame", "invalid pong frame", "invalid ping frame", "!frame.is_ack()", "right: Library")
 
 
 def c14_oracle(sc):
@@ -718,7 +815,7 @@ def c14_oracle(sc):
                 if f.get("ack"):
                     acks += 1
                     if acks > len(fed_settings):
-                        return {"step": st["i"], "why": "more SETTINGS acknowledgements written than SETTINGS frames fed", "acks": acks, "fed": len(fed_settings)}
+                        return {"class": "ack-surplus", "step": st["i"], "why": "more SETTINGS acknowledgements written than SETTINGS frames fed", "acks": acks, "fed": len(fed_settings)}
                     for s in fed_settings[:acks]:
                         if 5 in s:
                             max_frame = s[5]
@@ -727,13 +824,13 @@ def c14_oracle(sc):
             elif t == "PING" and f.get("ack"):
                 pongs += 1
                 if pongs > len(fed_pings):
-                    return {"step": st["i"], "why": "more PONGs written than PINGs fed", "pongs": pongs, "fed": len(fed_pings)}
+                    return {"class": "pong-surplus", "step": st["i"], "why": "more PONGs written than PINGs fed", "pongs": pongs, "fed": len(fed_pings)}
                 if clean and be(f["payload"]) != fed_pings[pongs - 1]:
-                    return {"step": st["i"], "why": "the k-th PONG does not echo the k-th PING's payload", "k": pongs,
+                    return {"class": "pong-payload", "step": st["i"], "why": "the k-th PONG does not echo the k-th PING's payload", "k": pongs,
                             "pong": f["payload"], "ping": fed_pings[pongs - 1]}
             elif t in ("DATA", "HEADERS", "PUSH_PROMISE", "CONTINUATION"):
                 if f.get("flen", 0) > max_frame:
-                    return {"step": st["i"], "why": "frame larger than the acknowledged MAX_FRAME_SIZE", "flen": f["flen"], "max": max_frame, "frame": t}
+                    return {"class": "frame-size", "step": st["i"], "why": "frame larger than the acknowledged MAX_FRAME_SIZE", "flen": f["flen"], "max": max_frame, "frame": t}
             elif t == "GOAWAY":
                 goaway_codes.append(f["code"])
     last = sc["trace"][-1]
@@ -744,16 +841,16 @@ def c14_oracle(sc):
                 for st in sc["trace"])
     if healthy and not ended and last["io"]["inbound"] == 0:
         if acks != len(fed_settings):
-            return {"step": last["i"], "why": "a SETTINGS frame was never acknowledged although the connection is healthy and settled",
+            return {"class": "settings-unanswered", "step": last["i"], "why": "a SETTINGS frame was never acknowledged although the connection is healthy and settled",
                     "acks": acks, "fed": len(fed_settings)}
         if pongs != len(fed_pings):
-            return {"step": last["i"], "why": "a PING was never answered although the connection is healthy and settled",
+            return {"class": "ping-unanswered", "step": last["i"], "why": "a PING was never answered although the connection is healthy and settled",
                     "pongs": pongs, "fed": len(fed_pings)}
     # stray ACK: more ACKs fed than SETTINGS of its own the endpoint has written => connection error PROTOCOL_ERROR
     own_total = 1 + sum(1 for st in sc["trace"] if st["i"] > 0 for f in st["out"] if f["t"] == "SETTINGS" and not f.get("ack"))
     if clean and transport_ok and sc.get("settled") and acks_fed > own_total and last["io"]["inbound"] == 0 and not ended:
         if 1 not in goaway_codes:
-            return {"step": last["i"], "why": "an acknowledgement that answers nothing was not treated as a connection error",
+            return {"class": "stray-ack-tolerated", "step": last["i"], "why": "an acknowledgement that answers nothing was not treated as a connection error",
                     "acks_fed": acks_fed, "own_settings": own_total, "goaways": goaway_codes}
     return None
 
@@ -786,8 +883,8 @@ def c15_oracle(sc):
         op = st["op"]
         o = op.get("op")
         res = st["res"]
-        if isinstance(res, dict) and "panic" in res:
-            return {"class": "panic", "step": st["i"], "why": "the library panicked", "panic": res["panic"]}
+        if isinstance(res, dict) and "panic" in res and any(t in res["panic"] for t in CONTROL_ASSERTS):
+            return {"class": panic_class(res["panic"]), "step": st["i"], "why": "an assertion of the control plane fired", "panic": res["panic"]}
         if o == "peer":
             w = op.get("what")
             if not (isinstance(w, dict) and "t" in w):
@@ -880,6 +977,10 @@ def oracle_control(rep, scs, prop):
                     st["op"].get("op") == "peer" and isinstance(st["op"].get("what"), dict) and st["op"]["what"].get("t") == "GOAWAY" for st in sc["trace"]):
                 nontriv += 1
         if v:
+            kn = [k for k in common.load_known_findings().get("known", []) if k.get("property") == prop and k.get("class") == v.get("class")]
+            if kn:
+                rep.known("%s/%s: %s" % (prop, v.get("class"), kn[0].get("what", "")[:160]))
+                continue
             n_viol += 1
             if n_viol <= 3:
                 rep.violation("failing-input", {"oracle": "%s wire-level oracle" % prop, "violation": v, "scenario": scenario_of(sc)})
